@@ -54,8 +54,8 @@ def _args(e):
 
 KILL_FILTERS = {
     None: None,
-    "after_shutdown": lambda s, p: any(h["flags"].shutdown for h in s.world.execs),
-    "before_shutdown": lambda s, p: not any(h["flags"].shutdown for h in s.world.execs),
+    "after_shutdown": lambda s, p: any(W.rawflag(h["flags"], "shutdown") for h in s.world.execs),
+    "before_shutdown": lambda s, p: not any(W.rawflag(h["flags"], "shutdown") for h in s.world.execs),
 }
 
 
@@ -207,8 +207,8 @@ def do_op(ctx, op, entry):
         entry["id"] = getattr(e, "executor_id", None)
         entry["n_workers"] = e._processes.raw_len()
         entry["max_workers"] = e._max_workers
-        entry["broken"] = e._flags.broken is not None
-        entry["shutdown"] = e._flags.shutdown
+        entry["broken"] = W.rawflag(e._flags, "broken") is not None
+        entry["shutdown"] = W.rawflag(e._flags, "shutdown")
         ctx["e"] = e
         del e
     elif name == "submit":
@@ -332,7 +332,8 @@ def do_op(ctx, op, entry):
         e = ctx["e"]
         hh = [h for h in w.execs if h["ref"]() is e][0]
         entry["value"] = dict(n_workers=e._processes.raw_len(), max_workers=e._max_workers,
-                              broken=e._flags.broken is not None, shutdown=e._flags.shutdown,
+                              broken=W.rawflag(e._flags, "broken") is not None,
+                              shutdown=W.rawflag(e._flags, "shutdown"),
                               slot=hh["slot_ksem"].value, queue_size=hh["queue_size"])
         del e
     elif name == "expect_inside":
@@ -342,8 +343,8 @@ def do_op(ctx, op, entry):
     elif name == "submit_expect":
         # a submit that is expected to raise (after shutdown / on a broken pool)
         e = ctx["e"]
-        entry["broken_at_call"] = e._flags.broken is not None
-        entry["shutdown_at_call"] = e._flags.shutdown
+        entry["broken_at_call"] = W.rawflag(e._flags, "broken") is not None
+        entry["shutdown_at_call"] = W.rawflag(e._flags, "shutdown")
         try:
             f = e.submit(tasks.ok, op[1], 0)
             rec.futures[op[1]] = f
@@ -429,10 +430,11 @@ def harvest(rec, S, w, verdict):
                           if not t.is_main]
     rec.sem_names = sorted(S.sem_names)
     rec.sems_created = len(S.sems)
-    rec.execs = [dict(shutdown=h["flags"].shutdown,
-                      broken=(type(h["flags"].broken).__name__, str(h["flags"].broken)[:400])
-                      if h["flags"].broken is not None else None,
-                      kill_workers=h["flags"].kill_workers,
+    rec.execs = [dict(shutdown=W.rawflag(h["flags"], "shutdown"),
+                      broken=(type(W.rawflag(h["flags"], "broken")).__name__,
+                              str(W.rawflag(h["flags"], "broken"))[:400])
+                      if W.rawflag(h["flags"], "broken") is not None else None,
+                      kill_workers=W.rawflag(h["flags"], "kill_workers"),
                       alive=h["ref"]() is not None,
                       pending=h["pending"].raw_keys(), running=h["running"].raw(),
                       slot_value=h["slot_ksem"].value if "slot_ksem" in h else None,
